@@ -12,7 +12,10 @@ from ..progprop import STD_TRUSTED
 
 # one representative per character class (the property's quantifier)
 CLASSES = ["a", "7", "_", ".", "-", ":", "/", "#", " ", "\t", "\n", "[", "]", "é"]
-EXTRA = ["Z", "0", "\r", "\x0b", "\x0c", " ", " ", "　", "\x1f", "𝔘", "%", "?", "=", "@", "\\", "{", "ǅ", "٣"]
+EXTRA = ["Z", "0", "\r", "\x0b", "\x0c", " ", " ", "　", "\x1f", "𝔘", "%", "?", "=", "@", "\\", "{", "ǅ", "٣",
+         # characters that Unicode case folding maps onto ASCII letters (re.IGNORECASE without re.ASCII): dotted capital I,
+         # dotless i, long s, Kelvin sign
+         "\u0130", "\u0131", "\u017f", "\u212a"]
 
 
 def run_strings(strs):
